@@ -230,6 +230,7 @@ package sql
 //@   requires PL(p)
 //@   modifies p.cur
 //@   ensures[tl] PL(p) && p.cur >= old(p.cur)
+//@   ensures[list.maximal; C07 C10] err == nil && len(result0) > 0 ==> curTokType(p) != COMMA
 //@   decreases pmeasure(p) * 32 + 16
 //@   loop 1 invariant PL(p) && p.cur >= old(p.cur)
 //@   loop 1 invariant ret == nil || fresh(ret)
